@@ -8,26 +8,31 @@
 (***************************************************************************)
 EXTENDS KeyPathUniv, Json, IOUtils, SequencesExt
 
+PathU0 == PathU(0)
+AU0 == AU(0)
+ValU0 == ValU(0)
+StrU0 == StrU(0)
+
 \* ---- design-level laws on the reference semantics -------------------------
 LtI(a, b) == PathLt(a, b, "intended")
 AlgebraModel ==
-  /\ \A a, b \in AU : /\ Sub(Concat(a, b), a) = [ok |-> TRUE, keys |-> b]
-                      /\ IsPrefix(a, Concat(a, b))
+  /\ \A a, b \in AU0 : /\ Sub(Concat(a, b), a) = [ok |-> TRUE, keys |-> b]
+                      /\ PrefixOf(a, Concat(a, b))
                       /\ Len(Concat(a, b)) = Len(a) + Len(b)
                       /\ (b # <<>> => ParentOf(Concat(a, b)).keys = Concat(a, ParentOf(b).keys))
-                      /\ (Sub(a, b).ok <=> IsPrefix(b, a))
+                      /\ (Sub(a, b).ok <=> PrefixOf(b, a))
                       /\ (Sub(a, b).ok => Concat(b, Sub(a, b).keys) = a)
-OrderIntended == /\ Irreflexive(AU, LtI) /\ Transitive(AU, LtI)
-                 /\ Trichotomous(AU, LtI) /\ PrefixFirst(AU, LtI)
+OrderIntended == /\ Irreflexive(AU0, LtI) /\ Transitive(AU0, LtI)
+                 /\ Trichotomous(AU0, LtI) /\ PrefixFirst(AU0, LtI)
 \* the rule as coded: TLC searches the design for counter-examples (believed only if the code reproduces them)
-BadTriples == {t \in AU \X AU \X AU : PathLt(t[1], t[2], "coded") /\ PathLt(t[2], t[3], "coded") /\ ~PathLt(t[1], t[3], "coded")}
-BadPairs == {t \in AU \X AU : t[1] # t[2] /\ ~PathLt(t[1], t[2], "coded") /\ ~PathLt(t[2], t[1], "coded")}
-TraverseModel == \A v \in ValU : VisitLogOK(v, Visits(v))
-FlattenModel == \A v \in ValU : InFlattenDomain(v) => Canonicalize(Flatten(v)) = v
-FlattenPathsModel == \A v \in ValU : \A i \in 1..Len(Flatten(v)) :
+BadTriples == {t \in AU0 \X AU0 \X AU0 : PathLt(t[1], t[2], "coded") /\ PathLt(t[2], t[3], "coded") /\ ~PathLt(t[1], t[3], "coded")}
+BadPairs == {t \in AU0 \X AU0 : t[1] # t[2] /\ ~PathLt(t[1], t[2], "coded") /\ ~PathLt(t[2], t[1], "coded")}
+TraverseModel == \A v \in ValU0 : VisitLogOK(v, Visits(v))
+FlattenModel == \A v \in ValU0 : InFlattenDomain(v) => Canonicalize(Flatten(v)) = v
+FlattenPathsModel == \A v \in ValU0 : \A i \in 1..Len(Flatten(v)) :
                         Parse(Format(Flatten(v)[i].p)) = [ok |-> TRUE, keys |-> Flatten(v)[i].p]
 
-ASSUME PrintT(<<"model", "paths", Cardinality(PathU), "algebra_paths", Cardinality(AU), "values", Cardinality(ValU)>>)
+ASSUME PrintT(<<"model", "paths", Cardinality(PathU0), "algebra_paths", Cardinality(AU0), "values", Cardinality(ValU0)>>)
 ASSUME PrintT(<<"model", "AlgebraModel", AlgebraModel>>)
 ASSUME PrintT(<<"model", "OrderIntended", OrderIntended>>)
 ASSUME PrintT(<<"model", "TraverseModel", TraverseModel>>)
@@ -38,10 +43,10 @@ ASSUME PrintT(<<"design", "coded_order_intransitive_triples", Cardinality(BadTri
 ASSUME AlgebraModel /\ OrderIntended /\ TraverseModel /\ FlattenModel /\ FlattenPathsModel
 
 \* ---- export ---------------------------------------------------------------
-StrSeq == SetToSeq(SeqsUpTo(Alphabet, MaxStr))
-PathSeq == SetToSeq(PathU)
-AUSeq == SetToSeq(AU)
-ValSeq == SetToSeq(ValU)
+StrSeq == SetToSeq(StrU0)
+PathSeq == SetToSeq(PathU0)
+AUSeq == SetToSeq(AU0)
+ValSeq == SetToSeq(ValU0)
 BadT == SetToSeq(BadTriples)
 ASSUME JsonSerialize(IOEnv.OUT_FILE,
   [strs |-> [i \in 1..Len(StrSeq) |-> [s |-> StrSeq[i], r |-> Parse(StrSeq[i])]],
